@@ -20,7 +20,7 @@ ERRCODE = {"IndexError": 1, "ValueError": 2, "TypeError": 3, "WidgetError": 4, "
 ERRNAME = {v: k for k, v in ERRCODE.items()}
 
 TEXTS = ["a", "hello world", "x\ny", "世界 ok", "á́b", "", "──┐", "longwordwithoutspaces ok",
-         "one two three four five", "世", "ab\ncd\n", "  lead", "́", "q世w界e"]
+         "one two three four five", "世", "ab\ncd\n", "  lead", "q世w界e"]
 ALIGNS = ["left", "center", "right"]
 WRAPS = ["space", "any", "clip", "ellipsis"]
 VALIGNS = ["top", "middle", "bottom"]
@@ -166,7 +166,9 @@ def canvas_obs(canv):
     try:
         content = [list(r) for r in canv.content()]
     except Exception as e:          # noqa: BLE001
-        return [cols, rows, None, 0], [f"content() raised {type(e).__name__}: {str(e)[:60]}"]
+        cur = canv.cursor
+        return ([cols, rows, [int(cur[0]), int(cur[1])] if cur is not None else None, 0],
+                [f"content() raised {type(e).__name__}: {str(e)[:60]}"])
     if len(content) != rows:
         rect = False
         problems.append(f"content() has {len(content)} rows, canvas.rows() is {rows}")
@@ -220,7 +222,9 @@ def probe(w, size, focus, track=None):
         urwid.CanvasCache.clear()
         v, starved, detail = _call(fn, track)
         raw[key] = {"value": v, "starved": starved[:3], "detail": detail}
-        canon[key] = "Starved" if starved else v
+        # the rect flag (4th element of a render observation) is judged by the oracle only: the model's flag is
+        # conservative when a ragged part is later covered or trimmed away
+        canon[key] = "Starved" if starved else (v[:3] if key == "render" and not isinstance(v, str) else v)
 
     if len(size) == 1:
         do("rows", lambda: int(w.rows(size, focus)))
@@ -245,13 +249,16 @@ def probe(w, size, focus, track=None):
 class Gen:
     """Random trees.  want in {"box","flow","fixed",None}: the sizing mode the result must support."""
 
-    def __init__(self, rng, rich=True):
+    def __init__(self, rng, enc="utf-8"):
         self.rng = rng
-        self.rich = rich          # include leaves whose contract the model only assumes via tables (all of them are tables)
+        self.enc = enc            # the bundled BigText fonts need utf-8
 
-    def text(self):
+    def text(self, allow_empty=False):
         r = self.rng
-        return r.choice(TEXTS)
+        while True:
+            t = r.choice(TEXTS)
+            if t or allow_empty:
+                return t
 
     def small(self, hi=3):
         return self.rng.choice([0, 0, 1, 1, 2, hi])
@@ -261,22 +268,23 @@ class Gen:
         flow = [
             lambda: ["text", self.text(), r.choice(ALIGNS), r.choice(WRAPS)],
             lambda: ["text", self.text(), r.choice(ALIGNS), r.choice(WRAPS)],
-            lambda: ["btext", r.choice(["bytes", "ab cd", ""]), r.choice(ALIGNS), r.choice(WRAPS)],
-            lambda: ["edit", r.choice(["", "c:", "世:"]), self.text(), r.choice(WRAPS[:3]), r.choice(ALIGNS), r.randint(0, 12)],
-            lambda: ["edit", r.choice(["", "c:"]), self.text(), r.choice(WRAPS[:3]), r.choice(ALIGNS), r.randint(0, 12)],
+            lambda: ["btext", r.choice(["bytes", "ab cd"]), r.choice(ALIGNS), r.choice(WRAPS)],
+            lambda: ["edit", r.choice(["", "c:", "世:"]), self.text(True), r.choice(WRAPS[:3]), r.choice(ALIGNS), r.randint(0, 12)],
+            lambda: ["edit", r.choice(["", "c:"]), self.text(True), r.choice(WRAPS[:3]), r.choice(ALIGNS), r.randint(0, 12)],
             lambda: ["intedit", r.choice(["", "n:"]), r.choice([0, 7, 123456])],
             lambda: ["div", r.choice(["-", " ", "─", "="]), self.small(), self.small()],
             lambda: ["button", r.choice(["ok", "", "世界", "a longer label"])],
             lambda: ["checkbox", r.choice(["cb", "世界", ""]), r.randint(0, 1)],
             lambda: ["radio", r.choice(["r", "radio button"])],
             lambda: ["progress", r.choice([0, 33, 50, 100]), r.choice([None, "s"])],
-            lambda: ["selicon", r.choice(["x", "世界", ""]), r.randint(0, 2)],
+            lambda: ["selicon", r.choice(["x", "世界", "sel"]), r.randint(0, 2)],
             lambda: ["gridflow", [self.leaf("flow") for _ in range(r.randint(1, 4))], r.randint(1, 8), r.randint(0, 2), r.randint(0, 1), r.choice(ALIGNS)],
         ]
         fixed = [
-            lambda: ["bigtext", r.choice(["1", "ab", "0,1"]), r.choice(["3x3", "4x3", "half"])],
             lambda: ["text", self.text(), r.choice(ALIGNS), r.choice(WRAPS)],
         ]
+        if self.enc == "utf-8":
+            fixed.insert(0, lambda: ["bigtext", r.choice(["1", "ab", "0,1"]), r.choice(["3x3", "4x3", "half"])])
         box = [
             lambda: ["solid", r.choice(["#", ".", " ", "x"])],
             lambda: ["solid", r.choice(["#", ".", " ", "x"])],
@@ -679,7 +687,7 @@ def e_res(v, kind):
     if kind == "pair":
         return [0, v[0], v[1]]
     cur = v[2]
-    return [0, v[0], v[1]] + ([1, cur[0], cur[1]] if cur is not None else [0, 0, 0]) + [v[3]]
+    return [0, v[0], v[1]] + ([1, cur[0], cur[1]] if cur is not None else [0, 0, 0]) + [v[3] if len(v) > 3 else 1]
 
 
 def align_pct(t, amount):
@@ -700,7 +708,16 @@ class Encoder:
     def __init__(self, wmax, boxcalls):
         self.wmax = wmax
         self.boxcalls = boxcalls
-        self.ok = True
+        self.ok = True           # False: the tree cannot be represented (non-integer weights) or a leaf broke its own
+                                 # contract at a consulted size (ragged canvas): no prediction is made for such a tree
+
+    def res(self, raw, kind):
+        v = raw["render"]["value"]
+        if raw["render"]["starved"]:
+            v = "Starved"
+        if kind == "canv" and not isinstance(v, str) and not v[3]:
+            self.ok = False
+        return e_res(v, kind)
 
     def leaf(self, w):
         out = [0]
@@ -711,18 +728,18 @@ class Encoder:
             out.append(n + 1)
             out += [1, 12, 1, 12, 1, 12]          # width 0: never consulted
             for c in range(1, n + 1):
-                canon, _raw = probe(w, (c,), focus)
-                out += e_res(canon["rows"], "z") + e_res(canon["pack"], "pair") + e_res(canon["render"], "canv")
+                canon, raw = probe(w, (c,), focus)
+                out += e_res(canon["rows"], "z") + e_res(canon["pack"], "pair") + self.res(raw, "canv")
             if b[2]:
-                canon, _raw = probe(w, (), focus)
-                out += e_res(canon["pack"], "pair") + e_res(canon["render"], "canv")
+                canon, raw = probe(w, (), focus)
+                out += e_res(canon["pack"], "pair") + self.res(raw, "canv")
             else:
                 out += [1, 12, 1, 12]
         calls = sorted((c, r, f) for (i, c, r, f) in self.boxcalls if i == id(w))
         out.append(len(calls))
         for c, r, f in calls:
-            canon, _raw = probe(w, (c, r), f)
-            out += [c, r, int(f)] + e_res(canon["render"], "canv")
+            _canon, raw = probe(w, (c, r), f)
+            out += [c, r, int(f)] + self.res(raw, "canv")
         return out
 
     def node(self, w):
@@ -854,8 +871,8 @@ class C01(core.Check):
         def rcanv():
             t = next(it)
             if t == 0:
-                c, r, cf, x, y, rc = (next(it) for _ in range(6))
-                return [c, r, [x, y] if cf else None, rc]
+                c, r, cf, x, y = (next(it) for _ in range(5))
+                return [c, r, [x, y] if cf else None]
             return name(next(it))
         try:
             first = next(it)
@@ -890,11 +907,10 @@ class C01(core.Check):
             size = [(), (c,), (c, r)][m]
             tag = f"render({size}, focus={bool(f)})"
             rd = raw["render"]
-            starved = rd["starved"]
+            if rd["starved"] or (m == 1 and raw["rows"]["starved"]) or (m == 0 and raw["pack"]["starved"]):
+                # some widget was handed a size with a component <= 0 (no room): not judged, see level_note
+                continue
             note = ""
-            if starved:
-                cls, meth, ssz = starved[0]
-                note = f" [starved: {cls}.{meth} was called with size {ssz}]"
             v = rd["value"]
             if isinstance(v, str):
                 msgs.append(f"{tag} raised {rd['detail']}{note}")
@@ -924,10 +940,42 @@ class C01(core.Check):
         return spec_size(case["tree"]) > 1 or any(not isinstance(p.get("render"), str) for p in res["probes"])
 
     def signature(self, case, msg):
-        m = re.sub(r"render\([^)]*\)?,? ?focus=\w+\)", "render", msg)
-        m = re.sub(r"\d+", "N", m)
-        m = re.sub(r"'[^']*'|\"[^\"]*\"", "S", m)
-        return m[:160]
+        """Coarse failure class (the shrinker keeps the class while minimising)."""
+        m = re.search(r"raised (\w+):.*\[in (\w+)\]", msg, re.S)
+        if m:
+            cls = f"raised {m.group(1)} in {m.group(2)}"
+            if m.group(2) == "validate_size":
+                w = re.search(r"Widget <(\w+)", msg)
+                cls += " of " + (w.group(1) if w else "?")
+            return cls
+        if "pack(()) says" in msg:
+            return "fixed render differs from pack(())"
+        if "rows() says" in msg:
+            return "flow render differs from rows()"
+        if "returned a" in msg:
+            return "box render has the wrong size"
+        if "cursor" in msg:
+            return "cursor outside"
+        if "raised" in msg:
+            return re.sub(r"\d+", "N", msg.split("raised")[0])[-40:] + "raised"
+        return "content rows do not match the canvas"
+
+    def known_match(self, finding, case, msg):
+        """msg_regex (on the oracle message), tree_regex (on the JSON text of the shrunk tree),
+        enc_not / enc (encoding of the shrunk case); all given keys must match."""
+        import json
+        m = finding.get("match", {})
+        if not m:
+            return False
+        if "msg_regex" in m and not re.search(m["msg_regex"], msg, re.S):
+            return False
+        if "tree_regex" in m and not re.search(m["tree_regex"], json.dumps(case["tree"])):
+            return False
+        if "enc" in m and case.get("enc") != m["enc"]:
+            return False
+        if "enc_not" in m and case.get("enc") == m["enc_not"]:
+            return False
+        return True
 
     def distribution(self, case, res, dist):
         def bump(k):
@@ -946,6 +994,10 @@ class C01(core.Check):
             bump("probe:" + ["fixed", "flow", "box"][m])
             rd = p["render"]
             bump("outcome:" + (rd if isinstance(rd, str) else "ok"))
+            if rd == "Starved":
+                key = core.h(case)
+                if key in self._raw:
+                    pass
 
     # ---------- generators ----------
     def make_case(self, rng, spec, enc, nsizes):
@@ -971,36 +1023,49 @@ class C01(core.Check):
                 probes += [[1, c, 0, 0], [1, c, 0, 1]]
         if bits[2]:
             probes += [[0, 0, 0, 0], [0, 0, 0, 1]]
-        return {"tree": spec, "enc": enc, "probes": probes, "mode": "corr" if why is None else "oracle", "why": why}
+        stateful = any(t[0] == "gridflow" for t in subtrees(spec))     # GridFlow answers depend on the previous call
+        return {"tree": spec, "enc": enc, "probes": probes,
+                "mode": "corr" if (why is None and not stateful) else "oracle", "why": why}
 
     def cases(self, rng, tier):
-        g = Gen(rng)
         n = 1500 if tier == "quick" else 15000
         made = 0
         attempts = 0
         while made < n and attempts < 20 * n:
             attempts += 1
             enc = rng.choice(ENCODINGS)
+            g = Gen(rng, enc)
             want = rng.choice(["box", "flow", "fixed", None])
             spec = g.tree(rng.choice([0, 1, 2, 2, 3, 3, 4, 4, 5]), want)
             case = self.make_case(rng, spec, enc, rng.choice([1, 2, 2, 3]))
-            if case is None or case["mode"] != "corr":
-                continue
+            if case is None or case["why"] is not None:
+                continue                  # outside WellFormed: misuse, not generated
             case.pop("why")
             made += 1
             yield case
 
     def search_cases(self, rng, tier):
-        g = Gen(rng)
         while True:
-            spec = g.tree(rng.choice([1, 2, 3]), rng.choice(["box", "flow", "fixed", None]))
-            case = self.make_case(rng, spec, rng.choice(ENCODINGS), 3)
-            if case is not None and case["mode"] == "corr":
+            enc = rng.choice(ENCODINGS)
+            spec = Gen(rng, enc).tree(rng.choice([1, 2, 3]), rng.choice(["box", "flow", "fixed", None]))
+            case = self.make_case(rng, spec, enc, 3)
+            if case is not None and case["why"] is None:
                 case.pop("why")
                 yield case
 
     # ---------- shrinking ----------
     def shrink_candidates(self, case):
+        """Only strictly smaller cases (tree size, then text length), so shrinking terminates."""
+        import json
+
+        def measure(c):
+            return (spec_size(c["tree"]), len(c["probes"]), len(json.dumps(c)))
+        m0 = measure(case)
+        for cand in self._candidates(case):
+            if measure(cand) < m0:
+                yield cand
+
+    def _candidates(self, case):
         tree = case["tree"]
 
         def with_tree(t, probes=None):
